@@ -12,6 +12,10 @@
 (*          ckpt{n,d,cs}  big adversarial runs: deepest chain d, number of *)
 (*                        elements cs below that chain's root (counted by  *)
 (*                        the harness by walking the parent pointers)      *)
+(*          bigq{n,pattern,rows,rows_clone_from}  size / check / equal     *)
+(*                        representatives on a big universe joined in      *)
+(*                        chain or binomial order, on the object and on a  *)
+(*                        clone_from copy of it                            *)
 (***************************************************************************)
 EXTENDS Dsu, TraceLib
 
@@ -23,6 +27,26 @@ P2(k) == IF k = 0 THEN 1 ELSE 2 * P2(k - 1)
 
 \* 2^d <= s without overflowing TLC's 32-bit integers
 LogBound(d, s) == d <= 30 /\ P2(d) <= s
+
+(* ---- the partition after the two bulk union orders used on big universes ---------------------------------- *)
+JoinC(c, u, v) ==
+    LET cu == c[u]
+        cv == c[v]
+        lo == IF cu < cv THEN cu ELSE cv
+    IN [w \in DOMAIN c |-> IF c[w] = cu \/ c[w] = cv THEN lo ELSE c[w]]
+RECURSIVE FoldJ(_, _, _)
+FoldJ(c, sq, i) == IF i > Len(sq) THEN c ELSE FoldJ(JoinC(c, sq[i][1], sq[i][2]), sq, i + 1)
+ChainSeq(k) == [i \in 1 .. (k - 1) |-> <<i, i - 1>>]
+RECURSIVE BinRow(_, _, _)
+BinRow(k, step, i) == IF i + step >= k THEN <<>> ELSE <<<<i, i + step>>>> \o BinRow(k, step, i + 2 * step)
+RECURSIVE BinSeq(_, _)
+BinSeq(k, step) == IF step >= k THEN <<>> ELSE BinRow(k, step, 0) \o BinSeq(k, 2 * step)
+OneClass(c) == \A x, y \in DOMAIN c : c[x] = c[y]
+\* evaluated by TLC at start-up: both orders leave a single class (here for every k up to 20; the argument -- after the
+\* round with block length s every aligned block of 2s elements is one class -- does not depend on k)
+ASSUME OneClassLemma ==
+    \A k \in 1 .. 20 : LET id == [w \in 0 .. (k - 1) |-> w]
+                        IN OneClass(FoldJ(id, ChainSeq(k), 1)) /\ OneClass(FoldJ(id, BinSeq(k, 1), 1))
 
 Init == n = 0 /\ comp = <<>> /\ rep = <<>> /\ l = 1
 
@@ -48,6 +72,14 @@ Step(e) ==
             /\ AStutter
       [] e.ev = "ckpt" ->
             /\ (~(LogBound(e.d, e.cs) /\ e.cs <= e.n)) => Mismatch(l, e, [bound |-> "2^d <= cs <= n"])
+            /\ AStutter
+      [] e.ev = "bigq" ->
+            \* universes beyond what the trace spec tracks element by element: for the union orders `chain`
+            \* (un(i, i-1) for all i) and `binomial` (blocks of 1, 2, 4, .. joined pairwise) (A) gives a single class
+            \* of n elements (ASSUME OneClassLemma below evaluates that for small n); every probe must answer so
+            /\ LET Bad(rows) == {i \in 1 .. Len(rows) : ~(rows[i][3] = e.n /\ rows[i][4] /\ rows[i][5])}
+               IN (e.pattern \notin {"chain", "binomial"} \/ Bad(e.rows) # {} \/ Bad(e.rows_clone_from) # {}) =>
+                      Mismatch(l, e, [all_connected_size |-> e.n])
             /\ AStutter
       [] OTHER -> Mismatch(l, e, "unknown event") /\ AStutter
 
